@@ -742,5 +742,5 @@ CLAIM = {
     "note": "Trusted: CPython ast, vsa symbolic folding, str.split/float. Part of the row-parsing rules are syntactic patterns over the current "
             "structure of Text.__init__ (a restructuring yields ANALYSIS-ERROR or a finding to triage, never a silent pass).",
     "technique": "static analysis: C09.7 row independence (the row-loop body folded with its inherited state symbolic; satisfiability of read-condition and assign-condition over the row-invariant tests); provenance of dictionary keys/values (AST def-use + symbolic event log), positional index discipline, "
-                 "predicate-set comparison, guard/use rule for split(), provenance of the row key's position components (the Location stored for the row's id)",
+                 "predicate-set comparison, guard/use rule for split(), provenance of the row key's position components (the Location stored for the row's id); C09.8 shared-allocation lint (dict.fromkeys(keys, alloc), [alloc] * n) over verif/input.py with a built-in control",
 }
